@@ -476,7 +476,32 @@ def find_renderer_method(tree, name):
     return find_method(tree, "DocutilsRenderer", name)
 
 
+def scan_footnote_sites(repo: Path) -> dict:
+    """Where does the package create footnote nodes / register them?  Symbol and anonymous footnotes can only come
+    from docutils' own rST parser (eval-rst): MyST must not call note_symbol_footnote*, and must build footnote /
+    footnote_reference nodes only in the two translated renderer methods (fail-closed)."""
+    out = {"footnote_ctor": [], "footnote_ref_ctor": [], "symbol_calls": []}
+    for p in sorted((repo / "myst_parser").rglob("*.py")):
+        t = ast.parse(p.read_text())
+        for fn in [n for n in ast.walk(t) if isinstance(n, ast.FunctionDef)]:
+            for n in ast.walk(fn):
+                if isinstance(n, ast.Call):
+                    f = ast.unparse(n.func)
+                    if f == "nodes.footnote":
+                        out["footnote_ctor"].append(fn.name)
+                    if f == "nodes.footnote_reference":
+                        out["footnote_ref_ctor"].append(fn.name)
+                if isinstance(n, ast.Attribute) and n.attr.startswith("note_symbol_footnote"):
+                    out["symbol_calls"].append(fn.name)
+    if sorted(set(out["footnote_ctor"])) != ["render_footnote_reference"] or sorted(set(out["footnote_ref_ctor"])) != ["render_footnote_ref"]:
+        raise Untranslatable(f"footnote nodes are built outside the two renderer methods: {out}")
+    if out["symbol_calls"]:
+        raise Untranslatable(f"symbol footnotes are registered in {out['symbol_calls']}")
+    return out
+
+
 def generate(repo: Path) -> str:
+    scan_footnote_sites(repo)
     tree = ast.parse((repo / "myst_parser/mdit_to_docutils/transforms.py").read_text())
     parts = [translate(find_method(tree, "SortFootnotes", "apply"), "sort"),
              translate(find_method(tree, "UnreferencedFootnotesDetector", "apply"), "detect"),
